@@ -54,7 +54,9 @@ BigChecks(run) ==
                            CASE p.kind = "always"    -> disc(p.name) <=> ViolatedG(p)
                              [] p.kind = "sometimes" -> disc(p.name) <=> WitnessedG(p)
                              [] OTHER -> TRUE],
-    stop_reason |-> [a |-> normal /\ Exhaustive(cfg) /\ cfg.target_depth = 0 /\ vn # ReachG, c |-> (normal /\ Exhaustive(cfg) /\ cfg.target_depth = 0 /\ vn # ReachG) => stop],
+    \* (the visited set is only known when the recording visitor was on)
+    stop_reason |-> [a |-> normal /\ Exhaustive(cfg) /\ cfg.target_depth = 0 /\ ~cfg.no_visitor /\ vn # ReachG,
+                     c |-> (normal /\ Exhaustive(cfg) /\ cfg.target_depth = 0 /\ ~cfg.no_visitor /\ vn # ReachG) => stop],
     \* every state is evaluated exactly once also when the visitor is off: the model counts evaluations itself
     evals_once |-> [a |-> comp /\ "evals" \in DOMAIN d /\ cfg.no_visitor,
                     c |-> (comp /\ "evals" \in DOMAIN d /\ cfg.no_visitor) => (d.evals = Cardinality(ReachG) /\ d.unique = Cardinality(ReachG))],
